@@ -555,13 +555,29 @@ func lenGuarded(at ssa.Instruction, cont ssa.Value) bool {
 		if cn == nil || named(g.Signature.Recv().Type()) != cn {
 			return false
 		}
+		hasLen := func(fn *ssa.Function) bool {
+			for _, gb := range fn.Blocks {
+				for _, gi := range gb.Instrs {
+					if lc, ok := gi.(*ssa.Call); ok {
+						if bi, ok := lc.Call.Value.(*ssa.Builtin); ok && bi.Name() == "len" {
+							if n2, f2, _ := loadedField(lc.Call.Args[0]); n2 == cn && f2 == cf {
+								return true
+							}
+						}
+					}
+				}
+			}
+			return false
+		}
+		if hasLen(g) {
+			return true
+		}
+		// the predicate asks a length method of the same type (`it.pos >= it.len()`)
 		for _, gb := range g.Blocks {
 			for _, gi := range gb.Instrs {
 				if lc, ok := gi.(*ssa.Call); ok {
-					if bi, ok := lc.Call.Value.(*ssa.Builtin); ok && bi.Name() == "len" {
-						if n2, f2, _ := loadedField(lc.Call.Args[0]); n2 == cn && f2 == cf {
-							return true
-						}
+					if h := lc.Call.StaticCallee(); h != nil && h != g && h.Blocks != nil && h.Signature.Recv() != nil && named(h.Signature.Recv().Type()) == cn && hasLen(h) {
+						return true
 					}
 				}
 			}
